@@ -2,7 +2,7 @@
 //!
 //! A case is `{dets: [{box: {x, y, w, h, k, na}, score}], thr: [num, den], sthr, outs: [[i, ...], ...], nt}`:
 //! lattice boxes (centre (x/2, y/2), width w/2, height h/2, angle k * pi/2, or None when na = 1), scores in
-//! hundredths (-1 = None), nms threshold num/den, score threshold in hundredths (-1 = None), and `outs` = every list
+//! hundredths of any sign (-100000 = None), nms threshold num/den, score threshold in hundredths of any sign (-100000 = None), and `outs` = every list
 //! of 1-based input indices the specification admits (a single list unless ranks tie).
 //!
 //! The real `similari::utils::nms::nms` is called on the list in several input orders (identity, reversed, rotated,
@@ -17,6 +17,8 @@ use similari::utils::bbox::Universal2DBox;
 use similari::utils::nms::nms;
 
 type Det = (Universal2DBox, Option<f32>);
+/// marker of `Nms.tla` for "no score" / "no score threshold" (scores themselves may be zero or negative)
+pub const NO_SCORE: i64 = -100000;
 
 fn mk_det(d: &Value) -> Det {
     let b = jget(d, "box");
@@ -30,7 +32,7 @@ fn mk_det(d: &Value) -> Det {
     let s = jint(d, "score");
     (
         Universal2DBox::new(x as f32 / 2.0, y as f32 / 2.0, angle, aspect, height),
-        if s < 0 { None } else { Some(s as f32 / 100.0) },
+        if s <= NO_SCORE { None } else { Some(s as f32 / 100.0) },
     )
 }
 
@@ -60,7 +62,7 @@ pub fn main(opts: &Opts) {
         let thr_v = jarr(&c, "thr");
         let thr = ji(&thr_v[0]) as f32 / ji(&thr_v[1]) as f32 * perturb;
         let st = jint(&c, "sthr");
-        let sthr = if st < 0 { None } else { Some(st as f32 / 100.0) };
+        let sthr = if st <= NO_SCORE { None } else { Some(st as f32 / 100.0) };
         let outs: Vec<Vec<usize>> =
             jarr(&c, "outs").iter().map(|l| l.as_array().unwrap().iter().map(|i| ji(i) as usize).collect()).collect();
         if jint(&c, "nt") == 1 {
